@@ -527,6 +527,70 @@ pub fn c07_case(rng: &mut Rng, max_objects: usize) -> String {
                 &grad_all(g2, cap),
             );
         }
+        if explicit.hit_objects.len() <= 40 {
+            // the thin public wrappers around the gradual constructors
+            let cap = explicit.hit_objects.len() * 3 + 8;
+            let reference = grad_all(GradualDifficulty::new(d.clone(), &explicit), cap);
+            f.eq("Difficulty::gradual_difficulty(map) == GradualDifficulty::new",
+                 &grad_all(d.clone().gradual_difficulty(&explicit), cap), &reference);
+            f.eq("Beatmap::gradual_difficulty(difficulty) == GradualDifficulty::new",
+                 &grad_all(explicit.gradual_difficulty(d.clone()), cap), &reference);
+            fn first_vals<I: Iterator>(mut it: I, k: usize, j: impl Fn(&I::Item) -> String) -> String {
+                let mut v = Vec::new();
+                while v.len() < k {
+                    match it.next() {
+                        Some(a) => v.push(j(&a)),
+                        None => break,
+                    }
+                }
+                arr(v)
+            }
+            let ref6 = first_vals(GradualDifficulty::new(d.clone(), &explicit), 6, |a| a.json());
+            let for_mode = match target {
+                0 => d.clone().gradual_difficulty_for_mode::<Osu>(&start).map(|g| first_vals(g, 6, |a| a.json())),
+                1 => d.clone().gradual_difficulty_for_mode::<Taiko>(&start).map(|g| first_vals(g, 6, |a| a.json())),
+                2 => d.clone().gradual_difficulty_for_mode::<Catch>(&start).map(|g| first_vals(g, 6, |a| a.json())),
+                _ => d.clone().gradual_difficulty_for_mode::<Mania>(&start).map(|g| first_vals(g, 6, |a| a.json())),
+            };
+            let generic6 = first_vals(GradualDifficulty::new(d.clone(), &explicit), 6, |a| match a {
+                DifficultyAttributes::Osu(a) => a.json(),
+                DifficultyAttributes::Taiko(a) => a.json(),
+                DifficultyAttributes::Catch(a) => a.json(),
+                DifficultyAttributes::Mania(a) => a.json(),
+            });
+            let _ = ref6;
+            f.eq("Difficulty::gradual_difficulty_for_mode(map) == GradualDifficulty::new(converted)",
+                 &for_mode.unwrap_or_else(|e| format!("Err({e:?})")), &generic6);
+            // gradual performance wrappers: the first values for an empty-ish state sequence
+            let st = rosu_pp::any::ScoreState::new();
+            let perf_first = |mut g: rosu_pp::GradualPerformance| -> String {
+                let mut v = Vec::new();
+                for _ in 0..4 {
+                    match g.next(st.clone()) {
+                        Some(a) => v.push(a.json()),
+                        None => break,
+                    }
+                }
+                arr(v)
+            };
+            let pref = perf_first(rosu_pp::GradualPerformance::new(d.clone(), &explicit));
+            f.eq("Difficulty::gradual_performance(map) == GradualPerformance::new",
+                 &perf_first(d.clone().gradual_performance(&explicit)), &pref);
+            f.eq("Beatmap::gradual_performance(difficulty) == GradualPerformance::new",
+                 &perf_first(explicit.gradual_performance(d.clone())), &pref);
+        }
+        // attribute builder conveniences
+        {
+            let a = explicit.attributes().difficulty(&d).build();
+            let b = rosu_pp::model::beatmap::BeatmapAttributesBuilder::from(&explicit).difficulty(&d).build();
+            f.eq("BeatmapAttributesBuilder::from(&map) == map.attributes()", &format!("{b:?}"), &format!("{a:?}"));
+            let c = rosu_pp::model::beatmap::BeatmapAttributesBuilder::new()
+                .ar(explicit.ar, false).cs(explicit.cs, false).hp(explicit.hp, false).od(explicit.od, false)
+                .mode(explicit.mode, explicit.is_convert).difficulty(&d).build();
+            f.eq("BeatmapAttributesBuilder with the map's fields set one by one == map.attributes()", &format!("{c:?}"), &format!("{a:?}"));
+            f.holds("check_suspicion accepts a generated map or names a reason",
+                    matches!(explicit.check_suspicion(), Ok(()) | Err(_)), "unreachable");
+        }
         let spec = gen_spec(rng, explicit.hit_objects.len() as u64);
         let want = spec
             .apply(Performance::new(&explicit).difficulty(d.clone()))
